@@ -3,6 +3,78 @@ A history is a list of op lines understood by harness/c15_life.cpp and extract/c
 from vlib.common import SplitMix64
 
 
+def cp_points(rng, k):
+    """k checkpoint positions: mostly on the lanes x,y = 45 mod 50 that no unmoved generated shape covers, sometimes anywhere"""
+    pts = []
+    for _ in range(k):
+        if rng.chance(3, 4):
+            pts.append((45 + 50 * rng.below(8), 45 + 50 * rng.below(8)))
+        else:
+            pts.append((rng.range(0, 400), rng.range(0, 400)))
+    return pts
+
+
+def k_op(conn, pts):
+    return 'K %d %d' % (conn, len(pts)) + ''.join(' %d %d' % p for p in pts)
+
+
+def gen_cp_history(rng):
+    """directed at ConnRef::setRoutingCheckpoints: set, (reroute), replace with fewer / more / none, (reroute), then delete
+    the connector and/or the router; transactions on or off, orthogonal or polyline, with a second connector sharing the scene"""
+    orth = rng.below(2)
+    trans = 1 if rng.chance(2, 3) else 0
+    ops = ['R %d %d' % (orth, trans), 'S 1 0 100 30 30 2', 'S 2 300 100 30 30 1', 'S 3 150 %d 40 50 1' % rng.choice([80, 90, 100])]
+    if rng.chance(1, 2):
+        ops.append('T')
+    ends = [('S 1 1', 'S 2 1'), ('S 1 2', 'P 380 %d' % rng.range(20, 300)), ('P 5 %d' % rng.range(20, 300), 'P 390 %d' % rng.range(20, 300)),
+            ('S 1 1', 'P 200 350')]
+    a, b = rng.choice(ends)
+    ops.append('C 10 %s %s' % (a, b))
+    conns = [10]
+    if rng.chance(1, 2):
+        ops.append('C 11 S 2 1 P %d %d' % (rng.range(0, 400), rng.range(200, 400)))
+        conns.append(11)
+    if rng.chance(2, 3):
+        ops.append('T')
+
+    def kick(c):
+        k = rng.below(5)
+        if k == 0:
+            ops.append('M 3 %d %d' % (rng.range(-20, 20), rng.range(-20, 20)))
+        elif k == 1:
+            ops.append('I %d' % c)
+        elif k == 2:
+            ops.append('E %d 1 P %d %d' % (c, rng.range(300, 400), rng.range(0, 400)))
+        elif k == 3:
+            ops.append('I %d' % c)
+            ops.append('M 1 %d %d' % (rng.range(-5, 5), rng.range(-5, 5)))
+        if rng.chance(3, 4):
+            ops.append('T')
+
+    counts = {c: 0 for c in conns}
+    for rnd in range(rng.range(2, 4)):
+        c = rng.choice(conns)
+        if rnd == 0:
+            k = rng.range(1, 3)
+        else:
+            k = rng.choice([0, max(0, counts[c] - 1), counts[c], counts[c] + 1, counts[c] + 2])
+        ops.append(k_op(c, cp_points(rng, k)))
+        counts[c] = k
+        if rng.chance(4, 5):
+            kick(c)
+    e = rng.below(5)
+    if e == 0:
+        ops.append('X 10')
+    elif e == 1:
+        ops += ['X 10', 'T']
+    elif e == 2:
+        ops += ['D 3', 'T']
+    elif e == 3:
+        ops += [k_op(10, []), 'X 10']
+    ops.append('Q')
+    return ops
+
+
 def gen_history(rng, max_steps=30, family='generic'):
     orth = rng.below(2)
     trans = 1 if rng.chance(3, 4) else 0
@@ -26,7 +98,7 @@ def gen_history(rng, max_steps=30, family='generic'):
 
     steps = rng.range(5, max_steps)
     for _ in range(steps):
-        op = rng.below(11)
+        op = rng.below(13)
         if op == 0 or len(shapes) < 2:
             i = newid()
             np = 1 + rng.below(2)
@@ -71,6 +143,10 @@ def gen_history(rng, max_steps=30, family='generic'):
                 j = rng.choice(cand)
                 ops.append('DJ %d' % j)
                 juncs.remove(j)
+        elif op == 11 and conns:
+            ops.append(k_op(rng.choice(conns), cp_points(rng, rng.below(4))))
+        elif op == 12 and conns:
+            ops.append('I %d' % rng.choice(conns))
     if rng.chance(1, 2):
         ops.append('T')
     ops.append('Q')
